@@ -33,6 +33,7 @@ func c03Gen(g *core.Gen) {
 		{Sizes: []int{12, 4, 8}, Slice: 4, Blocks: 4, Class: "uniq", G: 2},
 		{Sizes: []int{16, 9}, Slice: 8, Blocks: 3, Class: "trailzero"},
 		{Sizes: []int{9, 9}, Slice: 4, Blocks: 3, Class: "uniq", DupFile: true},
+		{Sizes: []int{27, 20}, Slice: 8, Blocks: 3, Class: "crccollide"}, // two different slices sharing a CRC-32, in one file and across files
 	} {
 		d := 1
 		if g.Thorough() || len(cfg.Sizes) == 2 {
